@@ -659,6 +659,11 @@ mut('c09-shared-disconnect-list', ['C09'], OB,
     [("    _disconnectCBs = None\n", "    _disconnectCBs = []\n"),
      ("        if self._disconnectCBs is None:\n            self._disconnectCBs = []\n", "")], ['C09.D6'])
 
+mut('c10-single-return-not-wrapped', ['C10', 'C11'], OB,
+    [("                    if m.nret == 1:\n                        return_values = [return_values]", "                    if m.nret == 1 and m.sigOut[0] in 'a(':\n                        return_values = [return_values]")], ['C10.D7', 'C11.D4'])
+mut('c10-scalar-not-wrapped', ['C10'], OB,
+    [("                else:\n                    return_values = [return_values]\n\n                r = message.MethodReturnMessage(", "                r = message.MethodReturnMessage(")], ['C10.D7'])
+
 # benign variants --------------------------------------------------------------
 mut('ok-int16-condexpr', ['C01', 'C02'], M,
     [("return 2, [struct.pack(lendian and '<h' or '>h', var)]",
